@@ -26,7 +26,7 @@ NOSTD = "encoder,xz,lzip,optimization"   # no_std build: crate-local Read/Write/
 # harness files that refer to items of other harness files (injected together automatically)
 FILE_DEPS = {
     "xz/writer.rs": ["xz/reader.rs", "xz.rs", "enc/lzma2_writer.rs"],
-    "xz/reader.rs": ["xz.rs"],
+    "xz/reader.rs": ["xz.rs", "lzma2_reader.rs"],
     "lzip/writer.rs": ["lzip.rs", "enc/lzma_writer.rs", "enc/lzma2_writer.rs"],
     "enc/lzma_writer.rs": ["enc/lzma2_writer.rs"],
     "enc/lzma2_writer.rs": ["enc/range_enc.rs"],
@@ -315,6 +315,15 @@ U(id="C15.aligned", props=["C15", "C13", "C14"], file="lz/aligned_memory.rs", ha
 U(id="C14.norm", props=["C14", "C13"], file="lz/lz_encoder.rs", harnesses=["c14_normalize_scalar"], stubs=[], assumptions=SIMD,
   functions=[("src/lz/lz_encoder.rs", "normalize_scalar")],
   contract="forall elements and offsets >= 0: scalar result = max(p,off)-off = the documented SIMD semantics; independent of how the slice is split")
+U(id="C18.lzma", props=["C18", "C03", "C01"], file="enc/lzma_writer.rs", features=NOSTD, harnesses=["c03_lzma_header_bytes", "c18_lzma_expected_size"],
+  contract_stubs=PAYLOAD_LZMA_W + ["LZMAEncoder::new -> zeroed (encoder, mode) pair"],
+  functions=[("src/enc/lzma_writer.rs", "new", "LZMAWriter"), ("src/enc/lzma_writer.rs", "write", "Write for LZMAWriter"), ("src/enc/lzma_writer.rs", "finish", "LZMAWriter")],
+  contract="13-byte .lzma header = props | dict LE | size LE (all ones when undeclared) for every option value; declared size E: writes accepted exactly up to E in total (excess refused, nothing consumed), finish succeeds iff total == E; encoder receives exactly the accepted bytes")
+U(id="C16.xz.stop", props=["C16", "C12"], file="xz/reader.rs",
+  harnesses=["c16_xz_end_of_blocks_single", "c16_xz_end_of_blocks_single_ignores_next", "c16_xz_end_of_blocks_multi_none", "c16_xz_end_of_blocks_multi_next"],
+  contract_stubs=["BlockHeader::parse -> index indicator => Ok(None); XZReader::parse_index_and_footer and try_start_next_stream -> ghost call log (their own contracts: C02.xz.index.r, C04.xz.hdrs, C12.xz.pad)"],
+  functions=[("src/xz/reader.rs", "prepare_next_block")],
+  contract="end of blocks: index+footer always verified first; single-stream mode: finished with no further access to the source (no look-ahead); multi-stream mode: exactly one look-ahead per finished stream, the next stream's blocks follow")
 
 # ---------------------------------------------------------------------------------------- quick-tier budget
 # Harnesses kept in the quick tier per unit; every other harness of the unit runs in the thorough tier only.
